@@ -25,6 +25,9 @@ THEOREMS = [
     'C10.atoms_model_roundtrip', 'C10.atoms_model_roundtrip_xml', 'C10.atoms_model_select',
     # System (scaled properties, symbols, masses, pbc), two configurations
     'C10.system_model_roundtrip', 'C10.system_model_roundtrip_xml', 'C10.system_model_two_units',
+    # System.model with a selection of the properties (any subset / order / units after atype, pos): writing a
+    # selection = writing the System that holds just the selected properties; round trip tree and XML; admissibility
+    'C10.systemModel_select', 'C10.system_model_select', 'C10.system_model_select_xml', 'C10.select_wf',
     # ElasticConstants
     'C10.elastic_model_roundtrip', 'C10.elastic_model_roundtrip_exact', 'C10.elastic_model_roundtrip_xml',
     'C10.elastic_model_two', 'C10.elastic_setter_roundtrip',
@@ -33,6 +36,7 @@ THEOREMS = [
     'C10.elastic_model_second_generation',
     # objects with state (a Box keeps its reciprocal vectors; a System holds its Box): any history = fresh object
     'C10.box_object_conversions', 'C10.box_object_read_model', 'C10.sysobj_model_fresh', 'C10.sysobj_model_roundtrip',
+    'C10.sysobj_edit_model_fresh',
     # the object invariants assumed above are established by the setters
     'C10.cleanVects_idem', 'C10.cijSet_idem',
 ]
@@ -45,10 +49,20 @@ PARTIAL = {
     'empty arrays': 'the value theorems assume a non-empty array (prodNat shape != 0): numpy gives an empty list the '
         'float dtype, so empty int/str arrays change dtype class',
     'prop_unit subsets': 'Atoms: atoms_model_select covers every selection / order of properties (reading = '
-        'constructing Atoms from the selected converted properties, defaults for a missing atype / pos). The System '
-        'theorems are about writing all properties in dictionary order (the default of System.model / dump); a '
-        'System.model call that selects properties is not stated as a theorem (the model functions systemModel / systemRead '
-        'take any selection: 25 % of the System correspondence and oracle cases select and reorder properties)',
+        'constructing Atoms from the selected converted properties, defaults for a missing atype / pos). System: '
+        'system_model_select(_xml) covers every selection that names atype and pos first and then any subset of the '
+        'other properties in any order with any admissible units (select_wf); a System selection that leaves atype '
+        'or pos out, or does not put them first (the reader then re-orders / fills in constructor defaults and '
+        'natypes comes from the default atype), is covered by the tie and the oracle only (driver sys ... sel, 25 % '
+        'of the System cases)',
+    'values outside the model': 'the Lean arrays hold rationals, integers and strings: boolean properties, NaN, '
+        'infinities and the sign of zero are checked by the clause oracle on the real code only (bit-for-bit '
+        'reproduction when no unit is involved), float32 input with a unit is not generated (numpy keeps float32 '
+        'against a python float factor: float32 arithmetic, overflow beyond 3e38)',
+    'side-effect clauses': 'writes do not modify object / arguments / input, two writes and two reads are '
+        'independent, reading does not modify the tree: decided on the real code (bitwise snapshots); the model is '
+        'functional, so they hold in it by construction (sysobj_model_fresh: writing changes nothing but the kept '
+        'reciprocal vectors)',
     'System objects': 'the object model (BoxObj / SysObj, BoxReach) covers the state that matters for this property - '
         'the reciprocal vectors a Box keeps - and the operations vects/origin setters, reciprocal_vects, position '
         'conversions, Box.model(model=), System.model; the other Box.set_* entry points (lengths, hi/los, abc) go '
@@ -320,7 +334,7 @@ NAMES_ODD = ['p', 'os', 'po', 's', 'a', 'typ', 'x y', 'é', 'shape', 'unit', 'va
              'property', 'scaled', 'avect', 'origin', 'atom-type-symbol', 'natom', 'error', 'atomic-system']
 
 
-def _gen_props(rng, natoms, ntypes, via='tree', scale=0):
+def _gen_props(rng, natoms, ntypes, via='tree', scale=0, box=None):
     atype = [rng.randint(1, ntypes) for _ in range(natoms)]
     atype[rng.randrange(natoms)] = ntypes
     pos = _gen_arr(rng, [natoms], dt='f' if rng.random() < 0.9 else 'i', trailing=[3], via=via, scale=scale)
@@ -329,6 +343,16 @@ def _gen_props(rng, natoms, ntypes, via='tree', scale=0):
         pos['data'] = [cm.dyadic(rng, -8, 8, 3) * 2.0 ** scale for _ in pos['data']]
         pos.pop('flavour', None)
         pos['form'] = 'c'
+    if box is not None and pos['dt'] == 'f' and rng.random() < 0.3:
+        # atoms on cell faces / edges / corners and a hair inside or outside them (relative coordinates 0, 1,
+        # +-1e-9, 1 +- 1e-9, 1e-7, 1e-4), far outside the cell: origin + rel . vects in double arithmetic
+        for i in range(natoms):
+            if rng.random() < 0.6:
+                rel = [rng.choice([0.0, 1.0, 1e-9, -1e-9, 1 - 1e-9, 1 + 1e-9, 1e-7, 1 - 1e-4, 0.5, -7.25, 12.5])
+                       for _ in range(3)]
+                for c in range(3):
+                    pos['data'][3 * i + c] = box['origin'][c] + sum(rel[k] * box['vects'][k][c] for k in range(3))
+        pos['form'] = 'c' if pos['form'] == 'narrow' else pos['form']
     lu = [None, 'scaled', 'scaled', 'angstrom', 'nm', 'm', gen_dim_unit(rng, 'length'), gen_dim_unit(rng, 'length')]
     if pos['form'] == 'narrow' and pos['dt'] == 'f':
         lu = lu[1:3]                        # (float32 positions: box-scaled only, see gen_uc)
@@ -422,7 +446,8 @@ def gen_sys(rng):
     w1, w2 = _gen_cfgs(rng)
     via = rng.choice(['tree', 'json', 'xml'])
     scale = rng.choice(SCALES)
-    props = _gen_props(rng, natoms, ntypes, via, scale)
+    box = _gen_box(rng, scale)
+    props = _gen_props(rng, natoms, ntypes, via, scale, box)
     nsym = rng.choice([0, ntypes, ntypes, ntypes, ntypes + 1, max(0, ntypes - 1)])
     symbols = [rng.choice(SYMBOLS) for _ in range(nsym)]
     natS = max(nsym, ntypes)
@@ -451,7 +476,7 @@ def gen_sys(rng):
     if io == 'tmpfile' and via == 'xml':
         io = 'stringio'             # xmltodict refuses tempfile's wrapper object (third party): JSON only
     case = {'kind': 'sys', 'via': via, 'w1': w1, 'w2': w2, 'sel': sel, 'scale': scale,
-            'box': _gen_box(rng, scale), 'box_unit': _len_unit(rng) if abs(scale) <= 100 else None,
+            'box': box, 'box_unit': _len_unit(rng) if abs(scale) <= 100 else None,
             'pbc': [rng.random() < 0.6 for _ in range(3)], 'symbols': symbols, 'masses': masses, 'mass_form': mass_form,
             'natoms': natoms, 'props': props,
             'call': rng.choice(['prop_unit', 'prop_unit', 'lists', 'default']),
@@ -471,7 +496,8 @@ def gen_sys(rng):
             val = [rng.choice(['Cu', 'Au', 'Pt', 'W']) for _ in range(nt)]
             case['override'] = {'symbols': val[0] if nt == 1 and rng.random() < 0.5 else val}
         elif what == 'pbc':
-            case['override'] = {'pbc': [rng.random() < 0.5 for _ in range(3)]}
+            # (all three False - a cluster - is a valid, falsy value)
+            case['override'] = {'pbc': [False] * 3 if rng.random() < 0.4 else [rng.random() < 0.5 for _ in range(3)]}
         else:
             case['override'] = {'masses': [rng.randint(8, 800) / 8 for _ in range(nt)]}
     if sel is None and rng.random() < 0.35:
@@ -1763,10 +1789,9 @@ def _tol(case):
     return (TOL0 + 2 * ulps * 2.0 ** -53, 0.0)
 
 
-def _loose(case):
-    """(rtol, atol) for box-scaled data: the 3x3 inverse of cells with condition number < 1e3 (|entries| <= 8 s,
-    |det| >= 8 s^3 for a common scale s) loses at most 1e-10 relative to the largest length involved - cell edge,
-    origin or position; nothing absolute: the bound scales with the case."""
+def _lengths(case):
+    """(L, P): largest length of the cell (edge component + origin component) and largest component of an
+    (n,3) property of the case."""
     b = case.get('box')
     L = 8.0 * 2.0 ** case.get('scale', 0)
     if b is not None:
@@ -1775,7 +1800,21 @@ def _loose(case):
     for p in case.get('props', []):
         if p['dt'] in 'fi' and p['shape'][-1:] == [3] and len(p['shape']) >= 2:
             P = max([P] + [abs(float(x)) for x in p['data'] if x == x and abs(x) != float('inf')])
+    return L, P
+
+
+def _loose(case):
+    """(rtol, atol) for box-scaled data read back (lengths): the 3x3 inverse of cells with condition number < 1e3
+    (|entries| <= 8 s, |det| >= 8 s^3 for a common scale s) loses at most 1e-10 relative to the largest length
+    involved - cell edge, origin or position; nothing absolute: the bound scales with the case."""
+    L, P = _lengths(case)
     return (1e-10, 1e-10 * (L + P))
+
+
+def _loose_rel(case):
+    """the same bound for the relative coordinates stored in the tree (dimensionless: lengths over the cell size)."""
+    L, P = _lengths(case)
+    return (1e-10, 1e-10 * (L + P) / L)
 
 
 def _norm_close(real, model, rtol, path, out):
@@ -1910,12 +1949,13 @@ def compare(case, r: RealRun, reply):
     if m['tree'] is None:
         return ['model refuses to write; implementation wrote ' + str(r.tree)[:200]]
     loose = _loose(case)
-    same_tree(r.tree, m['tree'], TOLW, '', loose, out)
+    loose_rel = _loose_rel(case)
+    same_tree(r.tree, m['tree'], TOLW, '', loose_rel, out)
     if r.text_error is not None:
         out.append(f'text encoding raised {r.text_error}')
         return out
     if r.via_tree is not None:
-        same_tree(r.via_tree, m['via'], TOLW, case['via'] + ':', loose, out)
+        same_tree(r.via_tree, m['via'], TOLW, case['via'] + ':', loose_rel, out)
     if r.read_error is not None:
         if m['read'] is not None:
             out.append(f'implementation raised on read ({r.read_error}); model reads {str(m["read"])[:200]}')
@@ -2415,9 +2455,12 @@ def oracle(ctx, case, r: RealRun):
             ok = False
         elif ok:
             got = r.read.Cij.flatten().tolist()
+            # (the tensor that is normalised the second time is the one read back: for 'isotropic' its Hill estimates
+            # can be much larger than the original constants when the original is nearly singular)
+            atol2 = atol if cs != 'isotropic' else 1e-12 * max(mx, max(abs(x) for x in got))
             ok &= _check_array(ctx, f'ec:{via}:{cs}:second', f'{tag} Cij read back, stored as {cs} and read again', case,
                                np.array(r.extra['read2']).reshape(6, 6), {'dt': 'f', 'shape': [6, 6], 'data': got},
-                               Fraction(1), 2 * rt, atol, False)
+                               Fraction(1), 2 * rt, atol2, False)
         return ok
     atoms = r.read if k == 'atoms' else r.read.atoms
     loose = _loose(case)
